@@ -20,8 +20,8 @@ RULE = ("reduced-form indexed grammars (<=4 non-terminals, <=2 indices, <=8 rule
         "Non-trivial: >=3 rules incl. a production or duplication rule; distinct = hash of the rule set.")
 ASSUMPTIONS = ["oracle step limit: a case on which the reference fixpoint gives up is discarded, never judged"]
 TIERS = {
-    "quick": {"workers": 8, "random": 60, "products": 8},
-    "thorough": {"workers": 16, "random": 1500, "products": 150, "pytest": True, "exhaustive": True, "hard_timeout": 3300},
+    "quick": {"workers": 8, "random": 60, "products": 8, "case_timeout": 40},
+    "thorough": {"workers": 16, "random": 1500, "products": 150, "case_timeout": 120, "pytest": True, "exhaustive": True, "hard_timeout": 3300},
 }
 MIN = {"quick": {"C17.IndexedGrammar.is_empty": 10000, "C17.IndexedGrammar.remove_useless_rules": 100,
                  "C17.IndexedGrammar.intersection": 30, "C17.Rules.__init__": 10000},
